@@ -20,7 +20,8 @@ class H(Harness):
     ASSUMPTIONS = ['initial occupancies are dyadic so that (1 - p) + p == 1 exactly (the float corner named in DESIGN.md C08 is outside the tie)']
 
     def gen_cases(self, tier, rnd, n):
-        return [compart.gen_case(rnd) for _ in range(n)]
+        # plus timesteps in which several selected events compete for one node (dense networks, probability 1)
+        return [compart.gen_case(rnd) for _ in range(n)] + compart.c05_cases(rnd, n // 2)
 
     def execute(self, case):
         return compart.run_case(case)
